@@ -74,6 +74,7 @@ type c15Consumer struct {
 	begunAt  int64 // messages whose send had begun when SpawnOutput returned
 	seenMax  int64 // max seq any consumer had received when DespawnOutput was called (-1: n/a)
 	despawn  bool
+	byScript bool // detached by a script step (not by the final wind-down after the stream was delivered)
 	isDevice bool
 	devIn    chan *input.InputEvent
 	devDone  chan struct{}
@@ -328,6 +329,7 @@ func runC15(c *C15Case, nontrivial *bool) *Violation {
 				time.Sleep(time.Duration(op.N) * time.Millisecond)
 				despawnStalledFull = true
 			}
+			cs.byScript = true
 			if dv := doDespawn(cs); dv != nil {
 				return dv
 			}
@@ -472,7 +474,7 @@ func runC15(c *C15Case, nontrivial *bool) *Violation {
 // wasDespawnedEarly: the consumer was detached by the script (not by the final wind-down after the
 // stream had been delivered).
 func wasDespawnedEarly(cs *c15Consumer, c *C15Case) bool {
-	return cs.despawn && cs.seenMax < int64(c.InputN-1)
+	return cs.byScript
 }
 
 func clipInts(a []int) string {
